@@ -152,6 +152,6 @@ def run_case(case, ctx):
 def stages(tier):
     q = tier == "quick"
     return [
-        HypStage("k1-exhaustive", conc_case, examples=5 if q else 40, shards=8 if q else 16),
-        HypStage("random-k4", lambda: conc_case(with_schedule=True), examples=250 if q else 3000, shards=4 if q else 8),
+        HypStage("k1-exhaustive", conc_case, examples=4 if q else 40, shards=8 if q else 16),
+        HypStage("random-k4", lambda: conc_case(with_schedule=True), examples=200 if q else 3000, shards=4 if q else 8),
     ]
